@@ -15,7 +15,7 @@ from mzverif.props import C06
 
 ID = "C15"
 LEVEL = "exploration"
-TECHNIQUE = "explicit product of the parameter space as reference: every element family exhaustively, metamorphic restriction of the real enumeration, histories of enumerations under different validators in one process, validity predicate on the raw space (340 step-tokenizer tuples), exhaustive Hamming neighbourhood of the legacy images, identity under use / save-load / ZANJ, differential across interpreters with different hash seeds, visiting orders and call histories; thorough: the full space of 5,878,656 tokenizers"
+TECHNIQUE = "explicit product of the parameter space as reference: every element family exhaustively, metamorphic restriction of the real enumeration, histories of enumerations under different validators in one process, validity predicate on the raw space (340 step-tokenizer tuples), exhaustive Hamming neighbourhood of the legacy images, identity under use / save-load / ZANJ, differential across interpreters with different hash seeds, visiting orders and call histories; thorough: the full space of 5,878,656 tokenizers; abandoned enumerations, an interrupted first full enumeration (thorough), saved forms with reordered keys, validation functions by position and by keyword"
 RULE = (
     "family case = element family (9); restriction case = (subset of coordinate, adjacency and path configurations accepted by extra "
     "validation functions) -> the enumeration must be exactly the explicit product; identity case = tokenizer parameter tuple (name, "
@@ -69,6 +69,9 @@ def check_family(case: dict):
     cls, expected = _families()[case["family"]]
     got = call("C15:all_instances", lambda: list(all_instances(cls, _default_vf())))
     sig = f"C15:family:{case['family']}"
+    # the validation functions handed over by keyword (as the library's own full enumeration does) give the same enumeration
+    got_kw = call("C15:all_instances", lambda: list(all_instances(cls, validation_funcs=_default_vf())))
+    require(sorted(x.name for x in got_kw) == sorted(x.name for x in got), f"{sig}:members", "enumeration with validation_funcs passed by keyword differs from the positional call")
     require(all(x.is_valid() for x in got), f"{sig}:invalid-member", f"{[x.name for x in got if not x.is_valid()][:3]}")
     gn, en = sorted(x.name for x in got), sorted(x.name for x in expected)
     require(len(set(en)) == len(en), "C15:harness:names-of-reference-not-distinct", "")
@@ -127,7 +130,8 @@ def check_enum_history(case: dict):
                     break
             del it
             labels.append("abandoned-enumeration")
-        got = call("C15:all_instances:history", lambda: list(all_instances(cls, vf)))
+        # (the validation functions are handed over by position or by keyword - a pure function of the step)
+        got = call("C15:all_instances:history", (lambda: list(all_instances(cls, vf))) if (step + len(rest)) % 2 == 0 else (lambda: list(all_instances(cls, validation_funcs=vf))))
         want = sorted(m.name for m, k in zip(members, keep) if k)
         gn = sorted(x.name for x in got)
         require(gn == want, "C15:enumeration-depends-on-earlier-enumerations" if step else "C15:restricted-family:members",
